@@ -56,17 +56,26 @@ impl<'a, U: Clone + 'a, E: Clone + 'a, T: Clone + IntoIterator<Item = Result<U, 
     }
 }
 
-impl<'a, U: Clone + 'a> Path<U> {
+impl<'a, U: Clone + 'a, E: Clone + 'a> Path<Result<U, E>> {
+    /// Combine the outputs of all path parts, the first part varying slowest.
+    ///
+    /// Like `x as $x | y as $y | ...`, an error in some part ends the combination,
+    /// regardless of the outputs of the following parts.
     fn combinations<I, F>(self, mut iter: I) -> BoxIter<'a, Self>
     where
         I: Iterator<Item = (Part<F>, Opt)> + Clone + 'a,
-        F: IntoIterator<Item = U> + Clone + 'a,
+        F: IntoIterator<Item = Result<U, E>> + Clone + 'a,
     {
         if let Some((part, opt)) = iter.next() {
             let parts = part.into_iter();
             flat_map_with(parts, (self, iter), move |part, (mut prev, iter)| {
+                let err = part.is_err();
                 prev.0.push((part, opt));
-                prev.combinations(iter)
+                if err {
+                    box_once(prev)
+                } else {
+                    prev.combinations(iter)
+                }
             })
         } else {
             box_once(self)
@@ -159,8 +168,8 @@ impl<'a, V: ValT + 'a> Part<V> {
     }
 }
 
-impl<'a, U: Clone + 'a, F: IntoIterator<Item = U> + Clone + 'a> Part<F> {
-    fn into_iter(self) -> BoxIter<'a, Part<U>> {
+impl<'a, U: Clone + 'a, E: Clone + 'a, F: IntoIterator<Item = Result<U, E>> + Clone + 'a> Part<F> {
+    fn into_iter(self) -> BoxIter<'a, Part<Result<U, E>>> {
         use Part::{Index, Range};
         match self {
             Index(i) => Box::new(i.into_iter().map(Index)),
@@ -173,6 +182,9 @@ impl<'a, U: Clone + 'a, F: IntoIterator<Item = U> + Clone + 'a> Part<F> {
             }
             Range(Some(from), Some(upto)) => {
                 Box::new(flat_map_with(from.into_iter(), upto, move |from, upto| {
+                    if from.is_err() {
+                        return box_once(Range(Some(from), None));
+                    }
                     map_with(upto.into_iter(), from, move |upto, from| {
                         Range(Some(from), Some(upto))
                     })
@@ -212,6 +224,13 @@ impl<T, E> Path<Result<T, E>> {
 }
 
 impl<T, E> Part<Result<T, E>> {
+    fn is_err(&self) -> bool {
+        match self {
+            Self::Index(i) => i.is_err(),
+            Self::Range(from, upto) => [from, upto].iter().any(|i| matches!(i, Some(Err(_)))),
+        }
+    }
+
     fn transpose(self) -> Result<Part<T>, E> {
         match self {
             Self::Index(i) => Ok(Part::Index(i?)),
